@@ -156,11 +156,12 @@ inductive BlockEnd
   deriving Repr
 
 /-- `FrameReader::read_frame` iterated inside one block, starting at cursor `c` with
-    `block_corrupted = false` (frame/reader.rs:50-104). -/
-def scanBlock (g : Geom) (data : Bytes) (c : Nat) : List FrameEv × BlockEnd :=
+    `block_corrupted = false` (frame/reader.rs:50-104). `rest` is the block content from the
+    cursor on (`&block[cursor..]`). -/
+def scanBlockFrom (g : Geom) (rest : Bytes) (c : Nat) : List FrameEv × BlockEnd :=
   if _h : g.B - c < HEADER_LEN then ([], .needNext c)
   else
-    let hdr := (data.drop c).take HEADER_LEN
+    let hdr := rest.take HEADER_LEN
     if isAllZero hdr then ([], .zeroHeader c)
     else
       match FrameType.ofCode (hdr.getD 6 0).toNat with
@@ -170,11 +171,16 @@ def scanBlock (g : Geom) (data : Bytes) (c : Nat) : List FrameEv × BlockEnd :=
         let c1 := c + HEADER_LEN
         if c1 + len > g.B then ([.corrupt], .needNext c1)   -- block_corrupted := true
         else
-          let p := (data.drop c1).take len
+          let body := rest.drop HEADER_LEN
+          let p := body.take len
           let ev := if frameCrc t p = leNat (hdr.take 4) then FrameEv.frame t p else FrameEv.corrupt
-          let (evs, e) := scanBlock g data (c1 + len)
+          let (evs, e) := scanBlockFrom g (body.drop len) (c1 + len)
           (ev :: evs, e)
 termination_by g.B - c
 decreasing_by simp only [HEADER_LEN] at *; omega
+
+/-- scan of a whole block `data` from cursor `c` -/
+def scanBlock (g : Geom) (data : Bytes) (c : Nat) : List FrameEv × BlockEnd :=
+  scanBlockFrom g (data.drop c) c
 
 end MRL
